@@ -348,6 +348,12 @@ class StepCounter:
             self.budget = None
             raise Budget()
 
+    def _jump(self, code, src, dst):
+        # backward jumps = loop iterations: a loop written on one line (comprehension, `for ...: stmt`) fires no LINE event per iteration
+        if dst > src:
+            return None
+        return self._line(code, 0)
+
     def start(self):
         m = self.mon
         try:
@@ -355,13 +361,15 @@ class StepCounter:
         except ValueError:
             pass
         m.register_callback(self.TOOL, m.events.LINE, self._line)
-        m.set_events(self.TOOL, m.events.LINE)
+        m.register_callback(self.TOOL, m.events.JUMP, self._jump)
+        m.set_events(self.TOOL, m.events.LINE | m.events.JUMP)
         self.active = True
 
     def stop(self):
         m = self.mon
         m.set_events(self.TOOL, 0)
         m.register_callback(self.TOOL, m.events.LINE, None)
+        m.register_callback(self.TOOL, m.events.JUMP, None)
         try:
             m.free_tool_id(self.TOOL)
         except ValueError:
